@@ -146,6 +146,9 @@ def _worker(args):
                 agg["known_hits"][kf["id"]] += 1
             elif len(agg["violations"]) < 40:
                 agg["violations"].append((seed, out.violation, variant))
+                if cur_path is not None:  # survives a later death of this process (heap already corrupted)
+                    with open(cur_path[:-4] + ".viol", "a") as f:
+                        f.write(json.dumps([seed, out.violation, variant]) + "\n")
             else:
                 agg.setdefault("violations_dropped", 0)
                 agg["violations_dropped"] = agg.get("violations_dropped", 0) + 1
@@ -295,6 +298,21 @@ def replay_file(path):
     return 3
 
 
+def _saved_violations(progress_dir):
+    out = []
+    try:
+        for fn in sorted(os.listdir(progress_dir)):
+            if fn.endswith(".viol"):
+                for line in open(os.path.join(progress_dir, fn)):
+                    try:
+                        out.append(json.loads(line))
+                    except ValueError:
+                        pass
+    except OSError:
+        pass
+    return out
+
+
 def _attribute_crash(mod, tier, progress_dir):
     """A worker process died. For every run that was executing in some worker at that moment, re-execute
     it alone in a fresh interpreter: a run that kills the interpreter again is a violation of a
@@ -303,6 +321,8 @@ def _attribute_crash(mod, tier, progress_dir):
 
     cands = []
     for fn in sorted(os.listdir(progress_dir)):
+        if not fn.endswith(".cur"):
+            continue
         try:
             seed, variant = open(os.path.join(progress_dir, fn)).read().split(" ", 1)
             cands.append((int(seed), None if variant == "None" else variant))
@@ -354,6 +374,7 @@ def run_check(mod, tier, master_seed, jobs=None, budget_s=None, n_max=None):
             tasks.append((mod.__name__, tier, master_seed * 1000 + vi, w, per_variant_jobs, n_max // len(variants),
                           deadline, variant))
     aggs = []
+    crashed_with = None
     progress_dir = None
     if getattr(mod, "CRASH_IS_VIOLATION", False):
         import tempfile
@@ -366,9 +387,16 @@ def run_check(mod, tier, master_seed, jobs=None, budget_s=None, n_max=None):
             try:
                 aggs.append(f.result(timeout=budget_s + 300))
             except Exception as e:  # worker died: harness error, never a verdict ...
+                saved = _saved_violations(progress_dir) if progress_dir else []
                 rc = _attribute_crash(mod, tier, progress_dir) if progress_dir else None
                 if rc is not None:  # ... unless the check is about native code and a run reproducibly kills it
                     return rc
+                if saved:
+                    # ... or runs before the death had already reported violations (memory corrupted by an
+                    # earlier run of the same process): triage those, without statistics
+                    print("note: a worker process died; judging the %d violation(s) reported before that" % len(saved))
+                    crashed_with = saved
+                    break
                 print("HARNESS-ERROR worker failed: %r" % (e,))
                 return 2
     if progress_dir:
@@ -395,6 +423,8 @@ def run_check(mod, tier, master_seed, jobs=None, budget_s=None, n_max=None):
         if len(total["samples"]) < 3:
             total["samples"].extend(a["samples"][: 3 - len(total["samples"])])
         harness_errors.extend(a["harness_errors"])
+    if crashed_with:
+        total["violations"] = [tuple(x) for x in crashed_with]
     if harness_errors:
         seed, err, tb = harness_errors[0]
         print("HARNESS-ERROR in %s seed=%d: %s\n%s" % (mod.__name__, seed, err, tb))
